@@ -74,6 +74,14 @@ var c07Items = []c07Item{
 		}
 		return t, len(xs) > 0
 	}},
+	{"sum(abs(v)) AS sab", "sab", func(g c07Group) (float64, bool) {
+		xs := ref.Usable(g.V)
+		t := 0.0
+		for _, x := range xs {
+			t += math.Abs(x)
+		}
+		return t, len(xs) > 0
+	}},
 	{"sum(CASE WHEN v > 1 THEN 1 ELSE 0 END) AS sc", "sc", func(g c07Group) (float64, bool) {
 		t := 0.0
 		for _, x := range ref.Usable(g.V) {
@@ -215,7 +223,7 @@ func hasAll(items []int, need []int) bool {
 }
 
 func c07Progs(tier string) []c07Prog {
-	itemSets := [][]int{{0}, {1}, {2}, {3}, {4}, {5}, {6}, {8}, {9}, {10}, {11}, {12}, {0, 7}, {0, 1, 4}, {7, 0, 2}, {0, 6, 7}, {8, 4}, {12, 0}, {9, 10, 11}}
+	itemSets := [][]int{{0}, {1}, {2}, {3}, {4}, {5}, {6}, {8}, {9}, {10}, {11}, {12}, {13}, {0, 7}, {0, 1, 4}, {7, 0, 2}, {0, 6, 7}, {8, 4}, {13, 0}, {9, 10, 12}, {11, 0}}
 	var out []c07Prog
 	for _, its := range itemSets {
 		for h := range c07Havings {
